@@ -314,6 +314,9 @@ class PoseidonSponge(_Hash):
         self._inputs = [c.operand("m%d" % i) for i in range(cfg["n"])]
         return ph.poseidon_hash, (list(self._inputs),), {}
 
+    def begin_call(self, c):
+        self._calls = []          # the permutations of an earlier call (history configurations) are not this call's
+
     def post(self, c, r, inputs):
         t = self._t
         rate = t - 1
@@ -434,3 +437,85 @@ def _pp_replay(self, ob, cfg):
 
 
 PoseidonParams.native_replay = _pp_replay
+
+
+_SPONGE_PROBE = r'''
+import sys, json, atexit
+req = json.load(open(sys.argv[1]))
+sys.path.insert(0, req["stubs"]); sys.path.insert(0, req["repo"]); sys.path.insert(0, req["root"])
+import pysnark.zkinterface.backend as be          # pre-import: the library's own selection mechanism picks it
+import pysnark.runtime as rt
+atexit._clear()
+import pysnark.poseidon_hash as ph
+from pysnark.poseidon_constants import poseidon_constants
+from contracts.hash_c import poseidon_plain
+p = be.get_modulus()
+K = poseidon_constants[rt.backend_name]
+vals = req["values"]
+out = dict(backend=rt.backend_name)
+inputs = [rt.PrivVal(v) for v in vals]
+if req.get("history"):
+    # the earlier call of the history configuration (same operands), inside a guarded region whose guard is 0 for `g0`
+    bak = rt.add_guard(rt.PrivVal(0)) if req["history"] == "g0" else None
+    try:
+        ph.poseidon_hash(list(inputs))
+    except BaseException as e:
+        out["earlier_call_raised"] = type(e).__name__
+    if bak is not None:
+        rt.restore_guard(bak)
+try:
+    r = ph.poseidon_hash(list(inputs))
+    got = [x.value % p for x in r]
+    out["outcome"] = "return"
+except BaseException as e:
+    got = None
+    out["outcome"] = "raise"; out["exception"] = type(e).__name__; out["message"] = str(e)[:200]
+t = K["t"]; rate = t - 1
+padded = [v % p for v in vals] + [1]
+padded += [0] * ((-len(padded)) % rate)
+st = [0] * t
+for b in range(len(padded) // rate):
+    st = [st[0]] + [(st[1 + i] + padded[b * rate + i]) % p for i in range(rate)]
+    st = poseidon_plain(st, K, p)
+ref = st[1:]
+out["digest"] = [str(x) for x in got] if got is not None else None
+out["reference_digest"] = [str(x) for x in ref]
+out["digest_equals_reference"] = got == ref
+bad = []
+def ev(lc):
+    return sum(cf * (1 if k == 0 else (be.pubvals[k - 1] if k > 0 else be.privvals[-k - 1])) for k, cf in lc.lc.items())
+for i, (A, B, C) in enumerate(be.constraints):
+    if (ev(A) * ev(B) - ev(C)) % p: bad.append(i)
+out["unsatisfied_constraints"] = bad[:10]
+out["confirmed"] = bool(got is not None and (got != ref or bad))
+json.dump(out, open(sys.argv[2], "w"), indent=1)
+'''
+
+
+def _sponge_replay(self, ob, cfg):
+    """The property in its own terms on the real code: CPython runs the real poseidon_hash (zkinterface backend selected
+    by pre-import, `flatbuffers` stubbed) on the countermodel's message, after the earlier call of a history
+    configuration if there is one, and compares the digest with the padded sponge over the independent plain-integer
+    permutation."""
+    import json, os, subprocess, sys, tempfile, shutil
+    from pyvc.replay import REPO, ROOT
+    from .selection_c import make_stub_env
+    model = ob.get("model") or {}
+    tmp = tempfile.mkdtemp(prefix="pyvc_sp_")
+    try:
+        stubs, env = make_stub_env(tmp)
+        vals = [int(model.get("s_m%d" % i, 3 + 7 * i)) for i in range(int(cfg.get("n", 0)))]
+        req = dict(stubs=stubs, repo=REPO, root=ROOT, values=vals, history=cfg.get("_history"))
+        json.dump(req, open(os.path.join(tmp, "req.json"), "w"))
+        open(os.path.join(tmp, "probe.py"), "w").write(_SPONGE_PROBE)
+        pr = subprocess.run(["python3-vt", "probe.py", "req.json", "out.json"], cwd=tmp, capture_output=True, text=True, timeout=300, env=env)
+        if not os.path.exists(os.path.join(tmp, "out.json")):
+            return dict(confirmed=False, replay_error=(pr.stdout + pr.stderr)[-1500:])
+        res = json.load(open(os.path.join(tmp, "out.json")))
+        res["message"] = [str(v) for v in vals]
+        return res
+    finally:
+        shutil.rmtree(tmp, ignore_errors=True)
+
+
+PoseidonSponge.native_replay = _sponge_replay
